@@ -9,11 +9,15 @@ import vlib
 RULE = ("seeded federated configurations (gvh/fedlab: supergraph of 3-10 object types + interfaces/unions/enums/input "
         "objects, partitioned into 2-4 subgraphs with single/compound/nested/second keys, @requires, @provides, "
         "@shareable, shared value types, subgraph-local types, interfaces declaring @requires fields and lists of "
-        "entities, second-key-only subgraphs; composition contract in harness/fedlab/CONTRACT.md), a key-consistent data "
+        "entities, second-key-only subgraphs, and -- in half of the medium / full configurations, knob 'covariant' -- "
+        "interfaces with object / list fields whose type is again an interface or union, narrowed covariantly by some "
+        "implementers, two levels deep; composition contract in harness/fedlab/CONTRACT.md), a key-consistent data "
         "universe per configuration (nullable positions sometimes null or failing, entity lists with repeats such as "
         "a,a,b,c,b and nulls in the middle), and 5 "
         "valid-by-construction operations per configuration (nesting across subgraph boundaries, aliases, named and "
-        "inline fragments on abstract types, __typename, variables and literals, @skip/@include); a third of the "
+        "inline fragments on abstract types, __typename, variables and literals, @skip/@include; under knob 'covariant' "
+        "one inner response key selected bare, under an outer `... on Impl` only, under an inner `... on Member` only, "
+        "under both, below lists and through named fragments); a third of the "
         "configurations use a minimal feature set, a third a medium one, a third everything. Each (configuration, "
         "universe, operation) goes through the real ExecutionEngine.Execute whose subgraph HTTP transport is answered by "
         "the Coq-extracted reference executor in subgraph mode; the reference result is the same executor in monolithic "
@@ -27,6 +31,13 @@ KNOWN = [
     ("external-field-requested-outside-provides", "request_owned",
      r"is @external in subgraph \w+ and not provided on this path"),
 ]
+
+# diagnosis appended to a data_equal detail by harness/cmd/c01 (diagnose): the response position of the first
+# difference, the (outer, inner) type-condition combinations the operation selects it under, the fields of the
+# post-processed response plan at that position with their type conditions, and the planner-made upstream aliases
+# of a response key on the way there
+DIAG = re.compile(r";; position (\S+) selected under (\d+) condition combination\(s\) \{([^}]*)\}; "
+                  r"plan fields \{([^}]*)\}; upstream merge aliases \{([^}]*)\}")
 
 
 def classify(case, detail):
@@ -48,6 +59,28 @@ def classify(case, detail):
     if clause == "errors_iff" and "gateway=true reference=false" in detail and "(abstract t)" in case \
             and "data equal; gateway error: Failed to fetch from Subgraph" in detail:
         return "entity-fetch-ignores-parent-type-condition"
+    # the abstract-selection rewrite copies `cv { ... on M {..} }`, selected on the interface, into `... on T { cv {..} }`
+    # of an implementer whose cv is narrowed to a type that M can never be: the upstream operation is invalid
+    if clause == "planning_never_fails" and "(covnarrowed t)" in case and re.search(
+            r"printOperation planner id: \d+: validation failed: external: Fragment cannot be spread here as objects of type "
+            r"\S+ can never be of type ", detail):
+        return "rewrite-keeps-fragment-impossible-under-narrowed-field"
+    m = DIAG.search(detail) if clause == "data_equal" else None
+    if m and "(covfield t)" in case:
+        position, ncombos, combos, fields, aliases = m.groups()
+        # abstract_selection_field_alias.go aliased a composite response key on the way to the diverging position in
+        # member fragments (`... on T { __internal_merge_T_cv: cv {..} }`): the resolve tree gives the aliased
+        # objects their own data path, postprocess merges them by response name, the children are then read
+        # from the wrong object
+        if aliases.strip():
+            return "merge-alias-on-composite-field-lost-in-field-merge"
+        # postprocess/merge_fields.go: the diverging response key is selected under several (outer, inner) type
+        # condition combinations and every field the merged plan keeps for it carries an inherited parent type
+        # condition -- the disjunction of the selections is not what the merged conditions express
+        plan_fields = [f for f in fields.split(" | ") if f.strip()]
+        if int(ncombos) >= 2 and plan_fields and all("parentOn=[" in f for f in plan_fields) \
+                and re.search(r": (members \{|null vs )", detail):
+            return "merge-scalars-conjoins-type-conditions"
     return None
 
 
@@ -55,6 +88,8 @@ def distribution(cases):
     d = {"subgraphs": {}, "fetches_per_plan": {}, "entity_fetches": {}, "abstract_selections": 0, "requires_used": 0,
          "provides_used": 0, "ops_with_variables": 0, "ops_with_fragments": 0, "ops_with_directives": 0,
          "ops_with_aliases": 0, "requires_field_selected_on_interface": 0, "object_list_selected_on_interface": 0,
+         "configs_with_knob_covariant": 0, "abstract_field_under_abstract_parent": 0, "with_covariant_narrowing": 0,
+         "same_inner_key_under_several_condition_combinations": 0,
          "engine_panics": 0, "gateway_reported_errors": 0, "member_order_differs": 0, "knob_tiers": {}}
     for c in cases:
         for name, rx in (("subgraphs", r"\(subgraphs (\d+)\)"), ("fetches_per_plan", r"\(fetches (\d+)\)"),
@@ -65,7 +100,9 @@ def distribution(cases):
         for name, tag in (("abstract_selections", "abstract"), ("requires_used", "requires"), ("provides_used", "provides"),
                           ("ops_with_variables", "vars"), ("ops_with_fragments", "frags"), ("ops_with_directives", "dirs"),
                           ("ops_with_aliases", "aliases"), ("requires_field_selected_on_interface", "ifacerequires"),
-                          ("object_list_selected_on_interface", "ifaceobjlist")):
+                          ("object_list_selected_on_interface", "ifaceobjlist"),
+                          ("abstract_field_under_abstract_parent", "covfield"), ("with_covariant_narrowing", "covnarrowed"),
+                          ("same_inner_key_under_several_condition_combinations", "covsamekey")):
             if "(%s t)" % tag in c:
                 d[name] += 1
         if "(gwerrors t)" in c:
@@ -77,7 +114,9 @@ def distribution(cases):
             d["member_order_differs"] += 1
         m = re.search(r'\(id \d+ \d+ \d+ "([^"]*)"\)', c)
         if m:
-            n = len(m.group(1).split(","))
+            if "covariant" in m.group(1).split(","):
+                d["configs_with_knob_covariant"] += 1
+            n = len([k for k in m.group(1).split(",") if k != "covariant"])
             tier = "minimal" if n <= 6 else ("medium" if n <= 20 else "full")
             d["knob_tiers"][tier] = d["knob_tiers"].get(tier, 0) + 1
     for k in ("subgraphs", "fetches_per_plan", "entity_fetches"):
@@ -146,7 +185,9 @@ def run(chk):
         os.remove(f)
     # recorded findings are not shrunk again on every run (their minimised cases live in corpus/C01)
     skip = ("conflict because they return conflicting types|not provided on this path|has field waiting for dependency"
-            "|rq[0-9_]+: null vs|gateway errors=true reference errors=false")
+            "|rq[0-9_]+: null vs|gateway errors=true reference errors=false"
+            "|Fragment cannot be spread here as objects of type|upstream merge aliases .__internal_merge"
+            "|selected under ([2-9]|[0-9][0-9]+) condition combination.s. .[^}]*.; plan fields .[^}|]*parentOn=")
     state, samples, allcases = {}, [], []
     corpus = os.path.join(vlib.ROOT, "corpus", "C01")
     if glob.glob(os.path.join(corpus, "*.json")):
@@ -154,7 +195,7 @@ def run(chk):
         if b:
             vlib.digest_batch(chk, b[0], b[1], classify, state)
             chk.coverage["corpus_cases"] = len(b[0])
-    b = vlib.run_batch(chk, "%s gen -seed %d -n %d -unis %d -shrink 2 -shrinkskip \"%s\" -out {out} -replaydir %s" % (
+    b = vlib.run_batch(chk, "%s gen -seed %d -n %d -unis %d -knobs all2 -shrink 2 -shrinkskip \"%s\" -out {out} -replaydir %s" % (
         exe, chk.seed, n, unis, skip, rdir), model, "gen", timeout=3000)
     if b:
         vlib.digest_batch(chk, b[0], b[1], classify, state)
@@ -164,7 +205,7 @@ def run(chk):
 
     def more(st):
         for k in range(1, 4):
-            bb = vlib.run_batch(chk, "%s gen -seed %d -n %d -unis %d -shrink 1 -shrinkskip \"%s\" -out {out} -replaydir %s" % (
+            bb = vlib.run_batch(chk, "%s gen -seed %d -n %d -unis %d -knobs all2 -shrink 1 -shrinkskip \"%s\" -out {out} -replaydir %s" % (
                 exe, chk.seed * 1000 + k, n * 2, unis, skip, rdir), model, "more%d" % k, timeout=3000)
             if bb:
                 vlib.digest_batch(chk, bb[0], bb[1], classify, st)
